@@ -620,6 +620,45 @@ func checkC11Wiring(p *Prog, r *Report, ru *Rule) {
 				}
 			}
 		}
+		/* A writer of the module's own between the handler and the file
+		which keeps records back must not let a later record overtake
+		them. */
+		for _, x := range valueRoots(jsonH.Common().Args[0], nil) {
+			var t types.Type
+			switch x.Kind {
+			case "call":
+				if c, ok := x.V.(*ssa.Call); ok {
+					if sc := c.Common().StaticCallee(); nil != sc && nil != sc.Pkg && strings.HasPrefix(sc.Pkg.Pkg.Path(), ModPath) {
+						t = c.Type()
+					}
+				}
+			}
+			if a, ok := x.V.(*ssa.Alloc); ok {
+				t = a.Type()
+			}
+			if nil == t {
+				continue
+			}
+			if tu, ok := t.(*types.Tuple); ok && 0 != tu.Len() {
+				t = tu.At(0).Type()
+			}
+			ms := p.SSA.MethodSets.MethodSet(t)
+			for k := 0; k < ms.Len(); k++ {
+				if "Write" != ms.At(k).Obj().Name() {
+					continue
+				}
+				wr := p.SSA.MethodValue(ms.At(k))
+				if nil == wr || nil == wr.Blocks || nil == wr.Pkg || !strings.HasPrefix(wr.Pkg.Pkg.Path(), ModPath) {
+					continue
+				}
+				for _, pa := range wr.Params {
+					if sl, ok := pa.Type().Underlying().(*types.Slice); ok && types.Identical(sl.Elem(), types.Typ[types.Byte]) {
+						r.Saw("func " + fnName(wr))
+						checkWriterKeepsOrder(wr, pa, ru, "the log file")
+					}
+				}
+			}
+		}
 		if "" != buffered {
 			ru.Bad("main.rmain:unbuffered", posOf(jsonH), "the log handler writes into %s: records of delivered lines sit in memory until a flush, and are lost when the process ends without one", buffered)
 		} else {
